@@ -999,6 +999,12 @@ def special_programs():
     P.append(("status-no-reason", "200", [("X-Zq1k", "vZq2wk")]))
     P.append(("status-sp-only", "200 ", [("X-Zq1k", "vZq2wk")]))
     P.append(("status-nonnumeric", "Qzq ok", [("X-Zq1k", "vZq2wk")]))
+    # text that means something to a formatting / templating step (str.format, %, string.Template, escapes)
+    for meta in ("{fields}", "{0}", "{", "}", "{{x}}", "{x.__class__}", "%s", "%(x)s", "%", "%%", "$x", "${x}", "\\r\\n", "\\"):
+        P.append(("meta-status:" + meta, "200 Qz" + meta, [("X-Zq1k", "vZq2wk")]))
+        P.append(("meta-status-only:" + meta, "200 " + meta, [("X-Zq1k", "vZq2wk")]))
+        P.append(("meta-value:" + meta, "200 Qz", [("A-Zq3", "aZq3"), ("X-Zq1k", "vZq" + meta + "2wk")]))
+        P.append(("meta-name:" + meta, "200 Qz", [("X-Zq" + meta, "vZq2wk"), ("Z-Zq4", "zZq4")]))
     for st in ("204 Qz", "304 Qz", "100 Qz", "199 Qz", "101 Qz", "205 Qz", "404 Qz", "500 Qz", "999 Qz"):
         P.append(("status-" + st[:3], st, [("X-Zq1k", "vZq2wk")]))
         P.append(("status-cl-" + st[:3], st, [("X-Zq1k", "vZq2wk"), ("Content-Length", "@CL")]))
